@@ -261,9 +261,63 @@ fn gen_unamb(g: &mut Gen, kind: i128, year_abs_lt: i128) -> Vec<Item> {
     }
     out
 }
+/// every symbol x width in a fixed full context (date fields after yyyy-MM-dd, time fields after HH:mm:ss), on chosen values
+fn grid_c12(g: &mut Gen, now_year: i128) {
+    use crate::civil::*;
+    let days: Vec<i128> = [(-9_999i64, 12, 31), (-150, 6, 15), (-99, 2, 28), (-1, 12, 31), (1, 1, 1), (9, 9, 9), (99, 10, 1), (100, 11, 30),
+                           (2020, 12, 31), (2021, 1, 3), (2024, 2, 29), (2024, 12, 1), (9_999, 12, 31)]
+        .iter().map(|&(y, m, d)| days_from_ymd(y, m, d) as i128).collect();
+    let lit = |c: char| Item::Lit(c, 1);
+    let mut push = |g: &mut Gen, kind: i128, val: Vec<i128>, items: Vec<Item>| {
+        let mut strs = vec![unparse(&items)]; let mut ints = vec![kind, now_year]; ints.extend(val);
+        let iv = items_ints(&items, &mut strs); ints.extend(iv);
+        g.push(true, Input::with_strs("roundtrip", ints, strs));
+    };
+    for &d in &days {
+        for (c, ws) in [('G', vec![1usize, 3, 4, 5, 7]), ('q', vec![1, 2, 3, 4, 5, 6]), ('w', vec![1, 2, 3]), ('e', vec![1, 2, 3, 4, 6, 7, 8, 9]),
+                        ('M', vec![1, 2, 3, 4, 7]), ('d', vec![1, 2, 3]), ('D', vec![1, 2, 3, 4])] {
+            for w in ws {
+                // the field under test after a full date; a one-letter numeric field is followed by a separator
+                let items = match c {
+                    'M' => vec![Item::Field('y', 4), lit('-'), Item::Field('M', w), lit('-'), Item::Field('d', 2)],
+                    'd' => vec![Item::Field('y', 4), lit('-'), Item::Field('M', 2), lit('-'), Item::Field('d', w), lit('|')],
+                    'D' => vec![Item::Field('y', 4), lit('-'), Item::Field('D', w), lit('|')],
+                    _ => vec![Item::Field('y', 4), lit('-'), Item::Field('M', 2), lit('-'), Item::Field('d', 2), lit(' '), Item::Field(c, w), lit('|')],
+                };
+                push(g, 0, vec![d], items.clone());
+                push(g, 2, vec![d, 45_296 * NPS + 123_456_789, 0], items);
+            }
+        }
+        for w in [1usize, 3, 4] { push(g, 0, vec![d], vec![Item::Field('y', w), lit('-'), Item::Field('M', 2), lit('-'), Item::Field('d', 2)]); }
+    }
+    let clocks: [i128; 8] = [0, 999_999_999, 43_199 * NPS + 500_000_000, 43_200 * NPS, 43_200 * NPS + 1, 3_661 * NPS + 7, 13 * 3_600 * NPS + 5 * 60 * NPS + 9 * NPS + 123_456_789, 86_399 * NPS + 999_999_999];
+    let offs: [i128; 6] = [0, 3_600, -3_600, 1_800, -45_240, 86_340];
+    for (i, &n) in clocks.iter().enumerate() {
+        for (c, ws) in [('a', vec![1usize, 3, 4, 5, 6]), ('b', vec![1, 3, 4, 5, 6]), ('h', vec![1, 2, 3]), ('K', vec![1, 2, 3]), ('k', vec![1, 2, 3]), ('H', vec![1, 2, 3]),
+                        ('m', vec![1, 2, 3]), ('s', vec![1, 2, 3]), ('n', vec![1, 2, 3, 4, 5, 6]), ('X', vec![1, 2, 3, 4, 5, 6]), ('x', vec![1, 2, 3, 4, 5, 6])] {
+            for w in ws {
+                let o = offs[(i + w) % offs.len()];
+                let items = match c {
+                    'H' | 'k' => vec![Item::Field(c, w), lit(':'), Item::Field('m', 2), lit(':'), Item::Field('s', 2)],
+                    'm' => vec![Item::Field('H', 2), lit(':'), Item::Field('m', w), lit(':'), Item::Field('s', 2)],
+                    's' => vec![Item::Field('H', 2), lit(':'), Item::Field('m', 2), lit(':'), Item::Field('s', w), lit('|')],
+                    'h' | 'K' => vec![Item::Field(c, w), lit(':'), Item::Field('m', 2), lit(':'), Item::Field('s', 2), lit(' '), Item::Field('a', 1)],
+                    _ => vec![Item::Field('H', 2), lit(':'), Item::Field('m', 2), lit(':'), Item::Field('s', 2), lit(' '), Item::Field(c, w), lit('|')],
+                };
+                push(g, 1, vec![n, o], items.clone());
+                let mut full = vec![Item::Field('y', 4), lit('-'), Item::Field('M', 2), lit('-'), Item::Field('d', 2), lit('T')];
+                full.extend(items);
+                if c != 'X' && c != 'x' { full.push(Item::Field('x', 5)); }
+                push(g, 2, vec![738_000, n, o], full);
+            }
+        }
+    }
+}
+
 pub fn gen_c12(g: &mut Gen, tier: &str) {
     let n = if tier == "thorough" { 60_000 } else { 3_000 };
     let now_year = Date::now().year() as i128;
+    grid_c12(g, now_year);
     for k in 0..n {
         let kind = (k % 3) as i128;
         let mut val = value_pool(g, kind);
